@@ -13,7 +13,8 @@ WT=/tmp/seed/$P
 git -C "$WT" checkout -q -- . && git -C "$WT" clean -fdq
 copy_to=$(python3 -c "import json,sys;print(json.load(open('$SRC/meta.json'))['demo']['copy_to'])")
 run_cmd=$(python3 -c "import json,sys;print(json.load(open('$SRC/meta.json'))['demo']['run'])")
-demo=$(ls "$SRC" | grep -v "patch.diff\|meta.json" | head -1)
+demo=demo_test.go; [ -f "$SRC/$demo" ] || demo=$(ls "$SRC" | grep -v "patch.diff\|meta.json" | head -1)
+run_cmd=${run_cmd%% (*}
 export GOFLAGS=-mod=mod GOPROXY=off
 rundemo() { (cd "$WT" && cp "$SRC/$demo" "$copy_to" && timeout 600 bash -c "$run_cmd" > /tmp/seed/out/$P/$K/.demo.$1.log 2>&1; echo $?; rm -f "$copy_to"); }
 without=$(rundemo without)
